@@ -138,6 +138,7 @@ fn special_seed(g: &mut Sm64, n_chains: usize) -> (u64, &'static str) {
         2 => (1u64 << 32, "2^32"),
         3 => (u64::MAX, "u64::MAX"),
         4 => (u64::MAX - g.below(n_chains + 2) as u64, "u64::MAX-k (per-chain offsets wrap)"),
+        5 => (((1u64 << [62u32, 63][g.below(2)]).wrapping_mul(1 + g.below(2) as u64)).wrapping_sub(1 + g.below(n_chains + 1) as u64), "m*2^62-1-k (per-chain seeds hit multiples of 2^62)"),
         _ => (g.next_u64(), "random"),
     }
 }
